@@ -615,6 +615,36 @@ def pr_result(r):
     return cp.lst(list(r.items()), one)
 
 
+def expected_names(doc):
+    """Names of the policies a document defines, or None when it is not a valid policy file
+    (docs/source/server.rst: object-type sections only, or 'preset'/'groups' sections)."""
+    from kmip.core import enums
+
+    def ppol(x):
+        return isinstance(x, dict) and all(
+            t in enums.ObjectType.__members__ and isinstance(ops, dict) and all(
+                o in enums.Operation.__members__ and isinstance(q, str) and q in enums.Policy.__members__ for o, q in ops.items())
+            for t, ops in x.items())
+    if not isinstance(doc, dict):
+        return None
+    names = []
+    for name, pol_ in doc.items():
+        if not isinstance(pol_, dict):
+            return None
+        if not pol_:
+            continue
+        if set(pol_) <= {'preset', 'groups'}:
+            pre, grp = pol_.get('preset'), pol_.get('groups')
+            if pre and not ppol(pre):
+                return None
+            if grp and not (isinstance(grp, dict) and all(ppol(g) for g in grp.values())):
+                return None
+        elif not (set(pol_) <= set(enums.ObjectType.__members__) and ppol(pol_)):
+            return None
+        names.append(name)
+    return names
+
+
 def parser_run(ctx, quick):
     from kmip.core import policy, enums
     probe = str(ctx.work / 'probe.json')
@@ -646,6 +676,18 @@ def parser_run(ctx, quick):
         if out[0] == 'other':
             ctx.violation({'class': 'parser-raises-other', 'exc': out[1]}, {'file_bytes': raw.decode('latin-1'), 'label': label},
                           'read_policy_from_file raised %s (the monitor catches only ValueError) ' % out[1])
+        # independent reading of the documented file format
+        if blob is not None and out[0] in ('ok', 'valueerror'):
+            want = expected_names(blob[1])
+            if want is None and out[0] == 'ok':
+                ctx.violation({'class': 'parser-accepts-invalid'}, {'file_bytes': raw.decode('latin-1'), 'label': label, 'result': repr(r)[:500]},
+                              'read_policy_from_file accepted a document that is not a valid policy file')
+            elif want is not None and out[0] == 'valueerror':
+                ctx.violation({'class': 'parser-rejects-valid'}, {'file_bytes': raw.decode('latin-1'), 'label': label},
+                              'read_policy_from_file rejected a valid policy file')
+            elif want is not None and list(r.keys()) != want:
+                ctx.violation({'class': 'parser-wrong-names'}, {'file_bytes': raw.decode('latin-1'), 'label': label, 'result': repr(r)[:500]},
+                              'read_policy_from_file returned policies %r, the file defines %r' % (list(r.keys()), want))
         if out[0] == 'ok':
             okshape = isinstance(r, dict) and all(
                 isinstance(v, dict) and set(v) <= {'preset', 'groups'} for v in r.values())
